@@ -299,11 +299,17 @@ OBS_SCHEMA = {
 OBS_TOPO = {'kx': ('X',), 'ky': ('Y',), 'n': ('side',)}
 
 
-def b_world(init, history, issuer, obs_ts):
+def b_world(init, history, issuer, obs_ts, kind='vars'):
     script = {}
     for i, op in enumerate(history):
         n = i if issuer == 'process' else i + 1
-        script[n] = st.op_update(op, 'inert')
+        # the structural entry is followed, in the same update, by an
+        # ordinary branch update of another port
+        upd = st.op_update(op, 'full' if kind == 'full' else 'inert')
+        upd['stats'] = {'count': 1}
+        if kind == 'full':
+            _snapshots_in_template(upd)
+        script[n] = upd
 
     def extra(spec):
         if obs_ts == 'step':
@@ -319,12 +325,18 @@ def b_world(init, history, issuer, obs_ts):
                 'log_snapshot': True,
                 'schema': copy.deepcopy(OBS_SCHEMA), 'update': {}}
         spec['topology']['obs'] = dict(OBS_TOPO)
+        where = spec['steps'] if issuer == 'step' else spec['processes']
+        where['op']['schema']['stats'] = {'count': dict(st.VAR)}
+        spec['topology']['op']['stats'] = ('stats',)
+        if kind == 'full':
+            _snapshots_on(spec['processes'])
+            _snapshots_on(spec['steps'])
         spec['processes']['ticker'] = {
             'cls': 'P', 'pid': 'ticker', 'ts': 1, 'log_states': False,
             'schema': {'tk': {'n': dict(st.VAR)}},
             'update': {'tk': {'n': 1}}}
         spec['topology']['ticker'] = {'tk': ('ticker_store',)}
-    spec = st.initial_world('vars', {}, issuer, script, init=init,
+    spec = st.initial_world(kind, {}, issuer, script, init=init,
                             extra=extra)
     spec['script'] = [('update', len(history) + 2)]
     return spec
@@ -333,16 +345,69 @@ def b_world(init, history, issuer, obs_ts):
 INITS = [{'X': ['a', 'b'], 'Y': []}, {'X': ['a'], 'Y': ['b']}]
 
 
+def _snapshots_in_template(tpl):
+    if isinstance(tpl, dict):
+        if '$probes' in tpl:
+            _snapshots_on(tpl['$probes'])
+        else:
+            for v in tpl.values():
+                _snapshots_in_template(v)
+    elif isinstance(tpl, list):
+        for v in tpl:
+            _snapshots_in_template(v)
+
+
+def _snapshots_on(tree):
+    for k, v in tree.items():
+        if isinstance(v, dict) and 'cls' in v:
+            if v.get('pid') not in ('op', 'ticker'):
+                v['log_snapshot'] = True
+        elif isinstance(v, dict):
+            _snapshots_on(v)
+
+
+def check_inner(ex, V):
+    """Every callback of every probe inside a compartment (processes,
+    flow steps, derivers - also generated, divided and moved ones): its
+    states == projection of the snapshot through ITS schema and topology
+    at the place where it currently lives."""
+    n = 0
+    events = ex.trace
+    for idx, ev in enumerate(events):
+        if ev[0] != 'snap' or ev[2] in ('obs', 'op', 'ticker') or \
+                len(ev) < 7 or ev[6] is None:
+            continue
+        own = tuple(ev[6])
+        inv = next((e for e in events[idx + 1:idx + 3]
+                    if e[0] == 'invoke' and e[1] == ev[1]), None)
+        if inv is None:
+            continue
+        p, s_, f, t = st.inner_spec('full')
+        spec_p = dict(p, **s_).get(ev[2])
+        if spec_p is None:
+            continue
+        want = rr.project(spec_p['schema'], {'in': ()}, own[:-1], ev[5])
+        n += 1
+        if inv[6] != want:
+            V('C07.view', 'inner-probe-sees-stale-or-foreign-node',
+              f'{ev[2]} at {own} (t={ev[4]}): states {inv[6]} but the '
+              f'hierarchy gives {want}')
+            return n
+    return n
+
+
 def run_b(job, acc):
-    _, init_i, history, issuer, obs_ts = job
+    _, init_i, history, issuer, obs_ts = job[:5]
+    kind = job[5] if len(job) > 5 else 'vars'
     init = INITS[init_i]
     case = {'part': 'B', 'init': init_i, 'history': history,
-            'issuer': issuer, 'obs_ts': obs_ts}
+            'issuer': issuer, 'obs_ts': obs_ts, 'kind': kind}
     V = lambda rule, fp, msg: acc.violate(  # noqa
         fw.violation(rule, fp, msg, case))
-    spec = b_world(init, history, issuer, obs_ts)
+    spec = b_world(init, history, issuer, obs_ts, kind)
     ex = worlds.execute(spec)
-    models = st.replay_model(init, 'vars', history)
+    models = st.replay_model(init, kind, history, gen_kind=(
+        'full' if kind == 'full' else None))
     acc.case(key=('B', init_i, history, issuer, obs_ts),
              outcome=f'B:{issuer}:{history[-1][0]}')
     acc.state(models[-1].canon())
@@ -356,6 +421,8 @@ def run_b(job, acc):
         return
     n = check_trace(ex, 'obs', OBS_SCHEMA, OBS_TOPO, (), V)
     acc.counters['callbacks_checked'] += n
+    if kind == 'full':
+        acc.counters['inner_callbacks_checked'] += check_inner(ex, V)
     if obs_ts == 'step' and not ex.error:
         # the dependent observer step sees each operation in the phase in
         # which the operator step issued it
@@ -406,6 +473,12 @@ def jobs(ctx):
                 for obs_ts in (1, 2) + (('step',) if issuer == 'step'
                                         else ()):
                     out.append(('B', init_i, h, issuer, obs_ts))
+        # compartments with their own process, flow steps and deriver,
+        # all of them observed (paths are re-used by delete + generate)
+        hists, seen, trans = st.enumerate_histories(
+            init, 'full', depth, with_pairs=False, gen_kind='full')
+        for h in hists:
+            out.append(('B', init_i, h, 'step', 1, 'full'))
     return out
 
 
@@ -427,5 +500,5 @@ def replay(case):
                 run_special(('S', label, spec), acc)
     else:
         run_b(('B', case['init'], tup(case['history']), case['issuer'],
-               case['obs_ts']), acc)
+               case['obs_ts'], case.get('kind', 'vars')), acc)
     return [v for exs in acc.viol_examples.values() for v in exs]
